@@ -18,7 +18,7 @@ SERVER_BEHAVIOURS = [
     {"framing": "cl", "segments": 6, "timeout_at_recv": 2}, {"framing": "chunked", "segments": 8, "timeout_at_recv": 3}, {"framing": "cl", "segments": 5, "reset_at_recv": 2},
     {"framing": "chunked", "stray": "response-idle"}, {"status": 204, "stray": "response-now"}, {"status": 304, "stray": "response-idle"}, {"status": 204}, {"pre100": True, "framing": "cl"}, {"pre100": True, "framing": "cl", "stray": "response-idle"},
 ]
-CALLER_BEHAVIOURS = ["read", "read-part-release", "release-unread", "drain", "close", "stream-part-abandon", "ignore", "read-part-close", "stream"]
+CALLER_BEHAVIOURS = ["read", "read-part-release", "release-unread", "drain", "close", "stream-part-abandon", "ignore", "read-part-close", "stream", "read-late"]  # read-late: read and release only after the next request was made (two leases overlap, then two connections idle)
 METHODS = ["GET", "GET", "HEAD", "POST"]
 
 
@@ -102,6 +102,7 @@ def run_case(rec: Recorder, case: dict[str, typing.Any]) -> None:
     delivered: dict[str, bytes] = {}
     outcomes: dict[str, str] = {}
     keep: list[typing.Any] = []
+    late: list[tuple[typing.Any, str]] = []
     with netsim.Net(server) as net:
         pool = urllib3.HTTPConnectionPool("d.test", 80, maxsize=case["maxsize"], block=False, retries=case["retries"])
         for i, (method, how) in enumerate(zip(case["methods"], case["caller"])):
@@ -134,11 +135,24 @@ def run_case(rec: Recorder, case: dict[str, typing.Any]) -> None:
                     r.release_conn()
                 elif how == "ignore":
                     keep.append(r)
+                elif how == "read-late":
+                    late.append((r, rid))
+                    r = None
             except HTTPError as e:
                 outcomes[rid] = "urllib3-error:" + type(e).__name__
             except Exception as e:  # noqa: BLE001
                 outcomes[rid] = "raw-error:" + type(e).__name__ + ":" + str(e)[:60]
             delivered[rid] = bytes(got)
+            # responses kept open across this request are finished now: their connections go back next to this one's
+            for lr, lrid in [x for x in late if x[1] != rid]:
+                try:
+                    delivered[lrid] = delivered.get(lrid, b"") + lr.read()
+                    lr.release_conn()
+                except HTTPError as e:
+                    outcomes[lrid] = "urllib3-error:" + type(e).__name__
+                except Exception as e:  # noqa: BLE001
+                    outcomes[lrid] = "raw-error:" + type(e).__name__ + ":" + str(e)[:60]
+                late.remove((lr, lrid))
             server.idle()
         arrivals = list(server.arrivals)
         pool.close()
@@ -211,6 +225,21 @@ def run_shard(ctx: Ctx, rec: Recorder) -> None:
                             case = {"maxsize": maxsize, "retries": retries, "methods": [m1, m2], "caller": [cb, "read"], "server": [dict(sb), {"framing": "cl"}, {"framing": "cl"}, {"framing": "cl"}]}
                             rec.case(["len2", sb, cb, m1, m2, retries, maxsize])
                             run_case(rec, case)
+    # (i-b) two overlapping leases on a pool of 2-3, both connections dirtied while idle, then one or two more requests
+    for s1 in ("response-idle", "garbage-idle", "eof-idle", None):
+        for s2 in ("response-idle", "garbage-idle", "eof-idle", None):
+            for maxsize in (2, 3):
+                for retries in (False, 2):
+                    for m3 in ("GET", "POST"):
+                        idx += 1
+                        if not ctx.mine(idx):
+                            continue
+                        b1 = {"framing": "cl", **({"stray": s1} if s1 else {})}
+                        b2 = {"framing": "cl", **({"stray": s2} if s2 else {})}
+                        case = {"maxsize": maxsize, "retries": retries, "methods": ["GET", "GET", m3, "GET"], "caller": ["read-late", "read", "read", "read"], "server": [b1, b2, {"framing": "cl"}, {"framing": "cl"}, {"framing": "cl"}, {"framing": "cl"}]}
+                        rec.case(["two-idle", s1, s2, maxsize, retries, m3])
+                        rec.mon("two_idle_connections")
+                        run_case(rec, case)
     rec.exhaustive_parts.append(f"length-2 histories: {len(SERVER_BEHAVIOURS)} server behaviours x {len(CALLER_BEHAVIOURS)} caller behaviours x methods x retries x pool size, strided 1/{stride}")
     n = ctx.pick(8000, 300000)
     for i in range(n):
